@@ -429,17 +429,40 @@ PROPS.update({
 AHEADS = ("unique_async", "shared_async", "guard_async")
 
 
+def aobs_nontriv(case, obs):
+    return "PEND" in obs
+
+
+def aobs_hist(case, obs):
+    n = obs.count("PEND")
+    return "pending-polls:" + ("0" if n == 0 else "1-2" if n <= 2 else "3-5" if n <= 5 else "6+")
+
+
 def c16_streams(tier, rng):
     q = tier == "quick"
     ml = 2 if q else 3
     n = 4000 if q else 150000
     orc = {"spec", "wake"}
+    aorc = {"aspec", "alive"}
+    na = 8000 if q else 200000
+    gl = [(4, 1), (3, 2)] if q else [(6, 1), (5, 2)]
+    gcases = []
+    for (l, k) in gl:
+        gcases += gens.aobs_exhaustive(l, k)
     return [
         Stream("exhaustive", "obs", gens.obs_exhaustive(ml, heads=AHEADS, counts=False), obs_nontriv, True,
                "the C01-C03 exhaustive histories (<= %d calls over the 21-call alphabet without the count functions) on Observable/SharedObservable/write guards created with the async lock, every future polled once by a hand-rolled executor (WOULDBLOCK if it does not complete)" % ml,
                obs_hist, oracles=orc),
         Stream("random", "obs", gens.obs_random(rng, n, heads=AHEADS, counts=False), obs_nontriv, False,
                "%d seeded random histories of 10..40 calls on the async flavour" % n, obs_hist, oracles=orc),
+        Stream("guarded-exhaustive", "aobs", gcases, aobs_nontriv, True,
+               "every history of <= %s calls (1 / 2 subscribers) over write().await / read().await guards kept across calls, set, get, next, next_ref, next_now, Stream polling, set through a held guard, dropping a held guard; every call is a future with its own counting waker, re-polled by the executor (smallest id first) whenever its waker fired; guards still held are dropped at the end" % " / ".join(str(l) for l, _ in gl),
+               aobs_hist, oracles=aorc),
+        Stream("guarded-sandwich", "aobs", gens.aobs_sandwich(1) + (gens.aobs_sandwich(2) if not q else []), aobs_nontriv, True,
+               "write ; X ; Y ; set through the guard ; drop the guard ; Z ; W for all calls X Y Z W (two futures queued behind a held write guard in either order, then two follow-up calls)",
+               aobs_hist, oracles=aorc),
+        Stream("guarded-random", "aobs", gens.aobs_random(rng, na), aobs_nontriv, False,
+               "%d seeded random guarded histories of 8..30 calls, 1-3 subscribers" % na, aobs_hist, oracles=aorc),
     ]
 
 
@@ -462,12 +485,14 @@ PROPS["C19"]["strength"] = "full for the default lock flavour; async flavour: kn
 PROPS["C19"]["level_note"] += " Known finding F8: with the async lock every subscriber owns two references, so subscriber_count/strong_count count each subscriber twice (C16_async_counts_refuted); reported as KNOWN-FINDING."
 PROPS["C16"] = dict(
     streams=c16_streams,
-    trusted=OBS_TRUST + ["tokio::sync::RwLock modelled as a FIFO permit semaphore (batch_semaphore.rs); not verified",
-                         "hand-rolled single-poll executor in the harness"],
-    assumptions=["no guard is held across another call in the histories run against the crate (guarded histories: model only)"],
-    strength="partial: equivalence with the default flavour at operation granularity for unguarded histories; the lock itself is modelled, guarded histories and thread schedules of the async flavour are not forced",
-    level_text="Coq theorems: except for the count functions the async-flavour model is the default-flavour model call by call, hence refines the same specification (C01-C03 transfer); in the permit-semaphore model of tokio's RwLock an acquire with nothing held or queued succeeds at once, and a queued writer is woken when the holders release. Tied to the crate by running the C01-C03 histories on the async API with every future polled once, against the model and against the specification oracle.",
-    level_note="PARTIAL. Trusted: as C01, plus tokio's RwLock as a permit semaphore. The count functions differ (F8, see C19).")
+    trusted=OBS_TRUST + ["tokio::sync::RwLock modelled as a FIFO permit semaphore (tokio-1.53.1 sync/batch_semaphore.rs: read = 1 permit, write = all; released permits go to the queue head first; a waiter is woken when fully served); modelled, not verified; the model's permit total is 64 (tokio: 2^29-1), which only matters with more than 63 concurrent readers",
+                         "hand-rolled executor in the harness: every call is a boxed future with its own counting waker, polled at creation and again (smallest id first) whenever its waker has fired",
+                         "dropping a future that is still queued for the lock (cancellation) is not exercised or modelled"],
+    assumptions=["guarded histories: one SharedObservable with 1-3 subscribers; handles are not cloned/dropped while guards are held (handle life-cycle is covered by the unguarded histories)",
+                 "thread schedules of the async flavour are not forced (single-threaded executor); the default flavour's schedules are C02-C04"],
+    strength="full at operation/poll granularity for single-threaded executors (unguarded histories: equality with the default flavour call by call; guarded histories: refinement of the default flavour's specification linearised at future completion, no lost wake-up); tokio's RwLock is modelled",
+    level_text="Coq theorems: except for the count functions the async-flavour model is the default-flavour model call by call, hence refines the same specification (C01-C03 transfer); in the permit-semaphore model of tokio's RwLock an acquire with nothing held or queued succeeds at once, and a queued writer is woken when the holders release. For histories with guards held across calls (AsyncGuard.v: every call a future that acquires, steps, releases; next()/next_ref() acquire twice) the theorems of AsyncGuardFacts.v apply (see props/C16.v). Tied to the crate by running the C01-C03 histories on the async API with every future polled once, and exhaustive + random guarded histories with a waker-driven executor, against the model and against the specification oracle (ok:aspec: each completed call equals the default flavour's specification at its completion; ok:alive: with no guard held and nothing woken, no call is stuck unless it is a subscriber with nothing new to see).",
+    level_note="Trusted: as C01, plus tokio's RwLock as a permit semaphore. The count functions differ (F8, see C19).")
 
 
 # ---------------------------------------------------------------- C20 ownership
